@@ -118,6 +118,53 @@ theorem chooseIntDtype_mem (fb : Option Nat) (mn mx : Rat) :
   · next r h => exact Or.inl (List.mem_of_find?_eq_some h)
   · exact Or.inr rfl
 
+/-! ### comparison modes -/
+
+theorem seenLimit_eq_mode (fb : Option Nat) (i : Int) :
+    seenLimit fb i = seenLimitMode sourceMode fb i := by
+  cases fb <;> rfl
+
+theorem rungAccepts_eq_mode (fb : Option Nat) (lo hi : Int) (r : Rung) :
+    rungAccepts fb lo hi r = rungAcceptsMode sourceMode fb lo hi r := by
+  unfold rungAccepts rungAcceptsMode
+  simp only [seenLimit_eq_mode]
+
+theorem chooseIntDtype_eq_mode (fb : Option Nat) (mn mx : Rat) :
+    chooseIntDtype fb mn mx = chooseIntDtypeMode sourceMode fb mn mx := by
+  unfold chooseIntDtype chooseIntDtypeMode
+  have : rungAccepts fb (roundHalfEven mn) (roundHalfEven mx) =
+      rungAcceptsMode sourceMode fb (roundHalfEven mn) (roundHalfEven mx) :=
+    funext (rungAccepts_eq_mode fb _ _)
+  rw [this]
+
+theorem seenLimitMode_exact (fb : Option Nat) (i : Int) : seenLimitMode .exact fb i = (i : Rat) := by
+  cases fb <;> rfl
+
+theorem rungAcceptsMode_exact (fb : Option Nat) (lo hi : Int) :
+    rungAcceptsMode .exact fb lo hi = rungAccepts none lo hi := by
+  funext r
+  unfold rungAcceptsMode rungAccepts
+  simp only [seenLimitMode_exact]
+  rfl
+
+/-- the comparison is exact when the bounds are integers or the source compares Python ints -/
+theorem rungAccepts_exact {fb : Option Nat} (h : fb = none ∨ sourceMode = .exact) (lo hi : Int) :
+    rungAccepts fb lo hi = rungAccepts none lo hi := by
+  rcases h with h | h
+  · rw [h]
+  · funext r
+    rw [rungAccepts_eq_mode, h, rungAcceptsMode_exact]
+
+theorem chooseIntDtypeMode_exact (fb : Option Nat) (mn mx : Rat) :
+    chooseIntDtypeMode .exact fb mn mx = chooseIntDtype none mn mx := by
+  unfold chooseIntDtype chooseIntDtypeMode
+  rw [rungAcceptsMode_exact]
+
+theorem chooseIntDtype_exact {fb : Option Nat} (h : fb = none ∨ sourceMode = .exact) (mn mx : Rat) :
+    chooseIntDtype fb mn mx = chooseIntDtype none mn mx := by
+  unfold chooseIntDtype
+  rw [rungAccepts_exact h]
+
 /-! ### duplicates -/
 
 theorem hasDup_iff (l : List Name) : hasDup l = true ↔ ¬ l.Nodup := by
